@@ -118,7 +118,7 @@ def check_alias(rep, algopy, rng, tier):
             rep.violation('alias:%s:%s:exception' % (form, op), '%s (%s) raises %r' % (form, op, e),
                           dict(kind='alias', form=form, op=op, data=data.tolist(), exc=repr(e)))
             continue
-        if not numpy.array_equal(numpy.asarray(got), numpy.asarray(want)):
+        if not numpy.array_equal(numpy.asarray(got), numpy.asarray(want), equal_nan=True):      # a divisor block may contain 0: inf/nan, identically in both
             rep.violation('alias:%s:%s' % (form, op), '%s with op %s differs from the same expression on an independent copy' % (form, op),
                           dict(kind='alias', form=form, op=op, data=data.tolist(), got=numpy.asarray(got).tolist(), want=numpy.asarray(want).tolist()))
 
@@ -216,6 +216,66 @@ def check_tracer(rep, algopy, rng, tier):
                                   dict(kind='tracer', program=name, x=xdata.tolist()))
             except Exception as e:
                 rep.notes.append('tracer program %s raised %r (decided by C03/C05)' % (name, e))
+
+
+def deep_snapshot(o):
+    """identity and bytes of an argument object, containers included: (id, kind, content)"""
+    if isinstance(o, (list, tuple)):
+        return (id(o), type(o).__name__, tuple(deep_snapshot(e) for e in o))
+    if hasattr(o, 'data') and hasattr(o.data, 'tobytes') and not isinstance(o, numpy.ndarray):
+        return (id(o), type(o).__name__, (o.data.shape, str(o.data.dtype), o.data.tobytes()))
+    if isinstance(o, numpy.ndarray):
+        return (id(o), 'ndarray', (o.shape, str(o.dtype), o.tobytes()))
+    return (id(o), type(o).__name__, repr(o))
+
+
+def check_driver_arguments(rep, algopy, rng, tier):
+    """every graph driver leaves the objects it is handed exactly as they were - arrays, lists of arrays (the multi-argument form of
+    gradient, pushforward, pullback, function) and their entries: same objects, same bytes - and can be called again with them"""
+    UTPM, CGraph, Function = algopy.UTPM, algopy.CGraph, algopy.Function
+    for it in range(8 if tier == 'quick' else 80):
+        a0 = numpy.array([rng.randint(1, 8) / 4 for _ in range(3)]); b0 = numpy.array([rng.randint(1, 8) / 4 for _ in range(2)])
+        cg = CGraph(); fa = Function(a0.copy()); fb = Function(b0.copy())
+        fy = algopy.sum(fa * fa * fa) * algopy.sum(fb * fb) + algopy.sin(fa[0]) * fb[1]
+        cg.trace_off(); cg.independentFunctionList = [fa, fb]; cg.dependentFunctionList = [fy]
+        cg1 = CGraph(); fx = Function(a0.copy()); fz = algopy.sum(fx * fx) * fx[0] + algopy.exp(fx[1])
+        cg1.trace_off(); cg1.independentFunctionList = [fx]; cg1.dependentFunctionList = [fz]
+        a = numpy.array([rng.randint(1, 8) / 4 for _ in range(3)]); b = numpy.array([rng.randint(1, 8) / 4 for _ in range(2)])
+        v = numpy.array([rng.randint(-4, 4) / 4 for _ in range(3)])
+        D, P = rng.randint(1, 3), rng.randint(1, 2)
+        ua = UTPM(dyadic_utpm(rng, D, P, (3,), nz=True)); ub = UTPM(dyadic_utpm(rng, D, P, (2,), nz=True)); ybar = UTPM(dyadic_utpm(rng, D, P, ()))
+        calls = [
+            ('gradient([a, b]) (list of arrays)', lambda args: cg.gradient(args), [a, b]),
+            ('gradient([list, list])', lambda args: cg.gradient(args), [a.tolist(), b.tolist()]),
+            ('function([a, b])', lambda args: cg.function(args), [a, b]),
+            ('pushforward([ua, ub])', lambda args: cg.pushforward(args), [ua, ub]),
+            ('pullback([ybar])', lambda args: cg.pullback(args), [ybar]),
+            ('gradient(a)', lambda args: cg1.gradient(args), a),
+            ('hessian(a)', lambda args: cg1.hessian(args), a),
+            ('hess_vec(a, v)', lambda args: cg1.hess_vec(args[0], args[1]), (a, v)),
+            ('jacobian(a)', lambda args: cg1.jacobian(args), a),
+            ('gradient(list)', lambda args: cg1.gradient(args), a.tolist()),
+        ]
+        for cname, call, args in calls:
+            rep.count('driver argument form', cname)
+            rep.case(('driver-args', cname, it), True, sample=dict(check='driver arguments untouched', call=cname))
+            before = deep_snapshot(args)
+            try:
+                r1 = call(args)
+                r1 = None if r1 is None else [numpy.array(getattr(r_, 'data', r_), copy=True) for r_ in (r1 if isinstance(r1, (list, tuple)) else [r1])]
+            except Exception as e:
+                rep.notes.append('driver call %s raised %r' % (cname, e)); continue
+            if deep_snapshot(args) != before:
+                rep.violation('driver-args:%s' % cname.split('(')[0], 'the call cg.%s changed the argument object it was given (container entries replaced or data modified)' % cname,
+                              dict(kind='driver-args', call=cname))
+                continue
+            try:
+                r2 = call(args)
+                r2 = None if r2 is None else [numpy.array(getattr(r_, 'data', r_), copy=True) for r_ in (r2 if isinstance(r2, (list, tuple)) else [r2])]
+                if r1 is not None and (len(r1) != len(r2) or not all(numpy.array_equal(x_, y_) for x_, y_ in zip(r1, r2))):
+                    rep.violation('driver-args:%s:second-call' % cname.split('(')[0], 'calling cg.%s again with the same argument objects gives a different result' % cname, dict(kind='driver-args', call=cname))
+            except Exception as e:
+                rep.violation('driver-args:%s:second-call' % cname.split('(')[0], 'calling cg.%s again with the same argument objects raises %r' % (cname, e), dict(kind='driver-args', call=cname, exc=repr(e)))
 
 
 def check_pullback_rules(rep, algopy, rng, tier):
@@ -343,6 +403,7 @@ def main(tier, seed):
     check_store_model(rep, algopy, rng, tier)
     check_tracer(rep, algopy, rng, tier)
     check_pullback_rules(rep, algopy, rng, tier)
+    check_driver_arguments(rep, algopy, rng, tier)
     check_extractors(rep, algopy, rng, tier)
     return rep.finish()
 
